@@ -490,6 +490,7 @@ func runHist(b *binding, casesPath string, tr *vh.Trace, shard, shards int) {
 // ---------------------------------------------------------------- concurrent workers
 
 var forceHow = -1
+var howName = map[int]string{3: "go-away", 4: "local-reset", 5: "remote-close", 6: "undecodable"}
 
 func pickHow(r *rand.Rand) int {
 	if forceHow >= 0 {
@@ -508,7 +509,9 @@ func runStress(b *binding, tr *vh.Trace, rounds, workers int, seed int64) {
 		tr.Emit(vh.Ev{"ev": "pool", "proto": b.name, "mc": cf[0], "mr": cf[1], "case": r, "stress": true})
 		var wg sync.WaitGroup
 		var dirtyLease, nOK, nRefused, nStuck int64
-		var condemned sync.Map // conn id -> true
+		var condemned sync.Map // conn id -> how it was condemned
+		var dirtyMu sync.Mutex
+		dirtyHow := []string{}
 		// responder: answers every arrival according to a per-arrival script chosen by the workers
 		type job struct {
 			how  int
@@ -543,16 +546,16 @@ func runStress(b *binding, tr *vh.Trace, rounds, workers int, seed int64) {
 					case 0, 1, 2:
 						a.Conn.C.Write(b.wire.Response(a.ID))
 					case 3:
-						condemned.Store(j.conn.N, true)
+						condemned.Store(j.conn.N, 3)
 						a.Conn.C.Write(b.wire.GoAwayResponse(a.ID))
 					case 4:
-						condemned.Store(j.conn.N, true)
+						condemned.Store(j.conn.N, 4)
 						j.send.GetStream().ResetStream(types.StreamLocalReset)
 					case 5:
-						condemned.Store(j.conn.N, true)
+						condemned.Store(j.conn.N, 5)
 						a.Conn.C.Close()
 					case 6:
-						condemned.Store(j.conn.N, true)
+						condemned.Store(j.conn.N, 6)
 						a.Conn.C.Write(b.wire.Garbage())
 					}
 				case <-stop:
@@ -587,8 +590,11 @@ func runStress(b *binding, tr *vh.Trace, rounds, workers int, seed int64) {
 					if conn == nil {
 						continue
 					}
-					if _, bad := condemned.Load(conn.N); bad {
+					if how, bad := condemned.Load(conn.N); bad {
 						atomic.AddInt64(&dirtyLease, 1)
+						dirtyMu.Lock()
+						dirtyHow = append(dirtyHow, fmt.Sprintf("%s:open=%v", howName[how.(int)], conn.Open()))
+						dirtyMu.Unlock()
 					}
 					lst := &listener{destroyed: make(chan struct{})}
 					sender.GetStream().AddEventListener(lst)
@@ -625,6 +631,7 @@ func runStress(b *binding, tr *vh.Trace, rounds, workers int, seed int64) {
 			}
 		}
 		e["overlap"] = overlap
+		e["dirtyhow"] = dirtyHow
 		w.obs(e)
 		tr.Emit(e)
 		w.end(nStuck > 0)
